@@ -497,6 +497,24 @@ MUTANTS = {
         "      return quantizers.quantized_po2(\n          bits=self.bits,\n"
         "          max_value=self.max_val_po2 if self.max_val_po2 > 2 else "
         "None,\n")]),
+    "m95_po2_operand_converted_in_place": dict(expect=["C17"], edits=[
+        E(QO + "adder_factory.py",
+          "    local_quantizer_1 = copy.deepcopy(quantizer_1)\n"
+          "    local_quantizer_2 = copy.deepcopy(quantizer_2)\n",
+          "    local_quantizer_1 = quantizer_1\n"
+          "    local_quantizer_2 = quantizer_2\n"),
+        E(QO + "adder_impl.py",
+          "  qbits_quantizer = quantizer_impl.QuantizedBits()\n"
+          "  qbits_quantizer.bits = bits_from_po2\n"
+          "  qbits_quantizer.int_bits = int_bits_from_po2\n"
+          "  qbits_quantizer.is_signed = po2_quantizer.is_signed\n\n"
+          "  return qbits_quantizer\n",
+          "  # re-use the operand object: it is a private copy\n"
+          "  po2_quantizer.mode = 0\n  po2_quantizer.is_po2 = 0\n"
+          "  po2_quantizer.bits = bits_from_po2\n"
+          "  po2_quantizer.int_bits = int_bits_from_po2\n"
+          "  po2_quantizer.name = \"quantized_bits\"\n\n"
+          "  return po2_quantizer\n")]),
 }
 
 BENIGN = {
@@ -802,4 +820,15 @@ BENIGN = {
     "b42_cached_parse_copied": dict(props=["C10", "C09"], edits=os.path.join(
         os.path.dirname(os.path.abspath(__file__)), "benign_patches",
         "b42_cached_parse_copied.diff")),
+    # the defensive copies are not needed as long as the implementations do
+    # not write to their operands: dropping them changes nothing observable
+    "b43_adder_without_defensive_copy": dict(props=["C17", "C18"], edits=[E(
+        QO + "adder_factory.py",
+        "    local_quantizer_1 = copy.deepcopy(quantizer_1)\n",
+        "    local_quantizer_1 = quantizer_1\n")]),
+    "b44_accumulator_without_defensive_copy": dict(props=["C17", "C18"],
+                                                   edits=[E(
+        QO + "accumulator_factory.py",
+        "    local_multiplier = copy.deepcopy(multiplier)\n",
+        "    local_multiplier = multiplier\n")]),
 }
